@@ -1588,7 +1588,11 @@ def diag_matrix(
                         f"_diag_{vector.name}[{i},{j}]",
                         lb=0.0,
                         ub=0.0,
-                        domain=vector.domain,
+                        # a binary Variable always gets the bounds [0, 1]: the
+                        # fixed zero of a binary vector is an integer in [0, 0]
+                        domain="integer"
+                        if vector.domain == "binary"
+                        else vector.domain,
                     )
                 )
         variables.append(row)
